@@ -5,6 +5,7 @@ import Hive.Model.EventsMaxN
 import Hive.Model.EventsPromise
 import Hive.Model.EventsNotifier
 import Hive.Model.EventsNotifierRace
+import Hive.Model.EventsOMap
 import Hive.Spec.Events
 open Hive
 
@@ -16,8 +17,9 @@ structure DSt where
   it : EventsRelink.LSt
   pr : Promise.St
   vn : Notifier.St
+  om : EventsOMap.St
 
-def dinit : DSt := { ar := Events.init, p0 := Promise.init, ev := Events.init, it := EventsRelink.linit, pr := Promise.init, vn := Notifier.init }
+def dinit : DSt := { ar := Events.init, p0 := Promise.init, ev := Events.init, it := EventsRelink.linit, pr := Promise.init, vn := Notifier.init, om := EventsOMap.init }
 
 def dstep (s : DSt) (toks : List String) : DSt × String :=
   match toks with
@@ -36,6 +38,7 @@ def dstep (s : DSt) (toks : List String) : DSt × String :=
     | ["trigger", v] => if v == "0" then let (x, o) := Promise.stepLine s.p0 r; ({ s with p0 := x }, o) else (s, "bad-op")
     | _ => let (x, o) := Promise.stepLine s.p0 r; ({ s with p0 := x }, o)
   | "vn" :: r => let (x, o) := Notifier.stepLine s.vn r; ({ s with vn := x }, o)
+  | "om" :: r => let (x, o) := EventsOMap.stepLine s.om r; ({ s with om := x }, o)
   | "vr" :: r => (s, NotifierRace.checkLine r)
   | "mt" :: r => (s, EventsSpec.checkMT r)
   | "pt" :: r => (s, EventsSpec.checkPT r)
